@@ -90,7 +90,112 @@ def test_fa(rng, rounds):
     return None
 
 
-TESTS = [("fa", test_fa)]
+def test_regex(rng, rounds):
+    from ref import fa, regex as RX
+
+    def rnd(depth):
+        k = rng.randint(0, 9)
+        if depth == 0 or k < 3:
+            return rng.choice([["0"], ["1"], ["s", "a"], ["s", "b"], ["s", "a"]])
+        if k < 5:
+            return ["*", rnd(depth - 1)]
+        return [rng.choice("+."), rnd(depth - 1), rnd(depth - 1)]
+
+    def naive(r, w):
+        t = r[0]
+        if t == "0":
+            return False
+        if t == "1":
+            return w == ""
+        if t == "s":
+            return w == r[1]
+        if t == "+":
+            return naive(r[1], w) or naive(r[2], w)
+        if t == ".":
+            return any(naive(r[1], w[:i]) and naive(r[2], w[i:]) for i in range(len(w) + 1))
+        return w == "" or any(naive(r[1], w[:i]) and naive(r, w[i:]) for i in range(1, len(w) + 1))
+
+    for _ in range(rounds):
+        r = rnd(4)
+        S = ["a", "b"]
+        A, B = RX.to_dfa(r, S), RX.to_dfa2(r, S)
+        if fa.equiv(A, B) is not None:
+            return "regex: derivative and Glushkov automata differ for %r" % (r,)
+        for w in fa.words_upto(S, 4):
+            if RX.matches(r, w) != naive(r, w) or RX.matches(r, w) != fa.accepts_rdfa(A, w):
+                return "regex: matches/naive/dfa disagree for %r on %r" % (r, w)
+    return None
+
+
+def test_cfg(rng, rounds):
+    from ref import cfg as RC
+    for _ in range(rounds):
+        V = ["S", "A", "B"][: rng.randint(1, 3)]
+        R = []
+        for A in V:
+            for _ in range(rng.randint(0 if A != "S" else 1, 3)):
+                R.append([A, [rng.choice(V + ["a", "b"]) for _ in range(rng.randint(0, 3))]])
+        spec = {"V": V, "T": ["a", "b"], "R": R, "S": "S"}
+        L = RC.lang_upto(spec, 4)
+        ws = [""]
+        layer = [""]
+        for _ in range(4):
+            layer = [w + a for w in layer for a in "ab"]
+            ws += layer
+        for w in ws:
+            if RC.accepts(spec, w) != (w in L):
+                return "cfg: span fixpoint and word-set fixpoint disagree for %r on %r" % (spec, w)
+        red = RC.reduce(spec)
+        if RC.lang_upto(red, 4) != L:
+            return "cfg: reduce changes the language of %r" % (spec,)
+    return None
+
+
+def test_pda(rng, rounds):
+    from ref import pda as RP
+    for _ in range(rounds):
+        Q = ["p", "q", "r"][: rng.randint(1, 3)]
+        G = ["X", "$"][: rng.randint(1, 2)]
+        d = set()
+        for _ in range(rng.randint(1, 6)):
+            k = rng.randint(0, 9)
+            g1, g2 = rng.choice(G), rng.choice(G)
+            u, v = ("", g1) if k < 4 else ((g1, "") if k < 7 else (("", "") if k == 7 else (g1, g2)))
+            d.add((rng.choice(Q), rng.choice(["a", "b", "", ""]), u, rng.choice(Q), v))
+        spec = {"Q": Q, "S": ["a", "b"], "G": G, "d": [list(t) for t in sorted(d)], "q0": Q[0], "F": [q for q in Q if rng.random() < 0.5], "eps": ""}
+        ws = ["", "a", "b", "aa", "ab", "ba", "bb", "aab", "abb", "aba"]
+        for w in ws:
+            a = RP.accepts(spec, w)
+            b = RP.accepts_bounded(spec, w, 7)
+            if a != b:
+                return "pda: saturation %r vs bounded-stack search %r for %r on %r" % (a, b, spec, w)
+            if RP.accepts_with_empty_stack(spec, w) and not a:
+                return "pda: empty-stack acceptance without acceptance"
+    return None
+
+
+def test_tm(rng, rounds):
+    from ref import tm as RT
+    for _ in range(rounds):
+        Q = ["s", "t", "u", "acc", "rej"][rng.randint(0, 2):]
+        G = ["a", "b", "_"]
+        d = []
+        for p in Q[:-2]:
+            for a in G:
+                if rng.random() < 0.75:
+                    d.append([p, a, rng.choice(Q), rng.choice(G), rng.choice("LR")])
+        spec = {"Q": Q, "S": ["a", "b"], "G": G, "d": d, "q0": Q[0], "acc": "acc", "rej": "rej", "blank": "_"}
+        for w in ["", "a", "b", "ab", "ba", "aab", "bbb"]:
+            for k in (0, 1, 2, 5, 30):
+                v, tr = RT.run(spec, w, k)
+                if v != RT.run2(spec, w, k):
+                    return "tm: simulators disagree on %r %r %r" % (spec, w, k)
+                if v is not None and RT.run(spec, w, k + 7)[0] != v:
+                    return "tm: verdict not monotone"
+    return None
+
+
+TESTS = [("tm", test_tm), ("fa", test_fa), ("regex", test_regex), ("cfg", test_cfg), ("pda", test_pda)]
 
 
 def run(quick):
